@@ -85,6 +85,18 @@ class Run:
         self.script = script
         self.sess = net.PeerSession()
         self.raised = []
+        self.first_offer = {}  # instance index -> instant its first multicast offer was decided (queue_send boundary)
+        ann = self.prot.announcer
+        orig = ann.queue_send
+        keys = {(x[0], x[1], x[2]): i for i, x in enumerate(insts)}
+
+        def queue_send(entry, remote=None):
+            k = keys.get((entry.service_id, entry.instance_id, entry.major_version))
+            if k is not None and remote is None and entry.ttl > 0 and int(entry.sd_type) == 1:
+                self.first_offer.setdefault(k, self.h.loop.time())
+            return orig(entry, remote=remote)
+
+        ann.queue_send = queue_send
 
     def do(self, a):
         ann = self.prot.announcer
@@ -196,8 +208,11 @@ def judge(ctx, sc, seed, replay):
     ctx.count("scenarios")
     ctx.count("find_entries", len(sc["entries"]))
     ctx.note("lifecycle_classes_seen", sc["cls"])
-    y, x, T0, d, ct = sc["y"], sc["x"], sc["T0"], sc["d"], cfg["ct"]
+    y, x, d, ct = sc["y"], sc["x"], sc["d"], cfg["ct"]
+    # the property promises the answer "inside the configured request-response window", not a particular draw
+    zlo, zhi = (y + cfg["rr"][0], y + cfg["rr"][1]) if sc["mc"] else (y, y)
     z = y + d
+    wmin, wmax = cfg["window"]
     must = []  # (k, count)
     may = []
     nontrivial = False
@@ -207,12 +222,13 @@ def judge(ctx, sc, seed, replay):
         if n == 0:
             continue
         stopped = sc["stop_k"] == k
-        if y < T0 - RES or (stopped and x < y - RES):
+        T0 = run.first_offer.get(k)  # observed; must lie in the initial-delay window (C10 owns that)
+        if T0 is None or y < T0 - RES or (stopped and x < y - RES):
             ctx.count("silent_by_phase", n)
             nontrivial = True
             continue
-        either = abs(y - T0) <= RES or (stopped and (abs(x - y) <= RES or abs(x - z) <= RES))
-        if stopped and not either and y - RES <= x < z - RES:
+        either = abs(y - T0) <= RES or (stopped and (abs(x - y) <= RES or (zlo - RES <= x <= zhi + RES)))
+        if stopped and not either and y - RES <= x < zlo - RES:
             ctx.count("silent_by_phase", n)  # stopped while the delayed answer was pending
             nontrivial = True
             continue
@@ -225,7 +241,7 @@ def judge(ctx, sc, seed, replay):
 
     def bad(mech, **detail):
         detail.update(config=cfg, instances=sc["insts"], entries=sc["entries"], lifecycle_class=sc["cls"], multicast=sc["mc"],
-                      find_at=y, stop_at=x, stopped_instance=sc["stop_k"], first_offer_at=T0)
+                      find_at=y, stop_at=x, stopped_instance=sc["stop_k"], first_offers=run.first_offer)
         ctx.violation(mech, detail, replay)
 
     for r in run.raised:
@@ -237,7 +253,7 @@ def judge(ctx, sc, seed, replay):
     if len(sc["peers"]) > 1:
         ctx.count("two_requesters_in_one_iteration")
     for the_peer in sc["peers"]:
-        _judge_peer(ctx, sc, run, sent, the_peer, must, may, ids, z, ct, tol, bad)
+        _judge_peer(ctx, sc, run, sent, the_peer, must, may, ids, (zlo, zhi), ct, tol, bad)
     for msg in sent:
         if msg["dst"] != net.MCAST and msg["dst"] not in sc["peers"]:
             bad("answer-sent-to-someone-other-than-the-requester", dst=msg["dst"])
@@ -261,9 +277,9 @@ def _judge_peer(ctx, sc, run, sent, the_peer, must, may, ids, z, ct, tol, bad):
             svc = sc["insts"][k]
             if e["ttl"] != cfg["ttl"] or e["val"] != svc[3] or (e["o1"], e["o2"]) != run.ref_opts[k]:
                 bad("answer-content-differs-from-configuration", instance=k, entry=e)
-            if not (z - tol <= msg["t"] <= z + ct + tol):
+            if not (z[0] - tol <= msg["t"] <= z[1] + ct + tol):
                 mech = "unicast-answer-delayed" if not sc["mc"] else "multicast-answer-outside-delay-window"
-                bad(mech, instance=k, sent_at=msg["t"], window=(z, z + ct))
+                bad(mech, instance=k, sent_at=msg["t"], window=(z[0], z[1] + ct))
             got[k] = got.get(k, 0) + 1
     for k, n in must:
         g = got.pop(k, 0)
